@@ -76,8 +76,8 @@ def remap(op, off):
 class C12(Scenario):
     pid = "C12"
     arms = {
-        "quick": [("uniform", 4), ("digit-boundary", 4), ("multi-mesh", 3), ("salt", 4), ("warm", 2), ("shared-measure", 3), ("faulty-noise", 2), ("demo", 1)],
-        "thorough": [("uniform", 4), ("digit-boundary", 4), ("multi-mesh", 3), ("salt", 4), ("warm", 2), ("shared-measure", 3), ("faulty-noise", 3), ("demo", 1), ("deep", 2)],
+        "quick": [("uniform", 4), ("digit-boundary", 4), ("multi-mesh", 3), ("salt", 4), ("warm", 2), ("shared-measure", 3), ("faulty-noise", 2), ("demo", 1), ("probe", 4)],
+        "thorough": [("uniform", 4), ("digit-boundary", 4), ("multi-mesh", 3), ("salt", 4), ("warm", 2), ("shared-measure", 3), ("faulty-noise", 3), ("demo", 1), ("deep", 2), ("probe", 4)],
     }
     runs = {"quick": 1500, "thorough": 60000}
     wall = {"quick": 75, "thorough": 1300}
@@ -118,6 +118,14 @@ class C12(Scenario):
             cfg["global_measure_p"] = 0.9
             cfg["n_forms"] = rng.randint(1, 2)
             cfg["n_derived"] = rng.randint(2, 5)
+        elif arm == "probe":
+            # forms that share arguments / spaces / measures with forms derived from them
+            cfg["n_meshes"] = rng.choice([1, 2, 2, 3])
+            cfg["n_forms"] = rng.randint(1, 3)
+            cfg["n_derived"] = rng.randint(2, 6)
+            fam["mixed_space"] = 0.25
+            fam["flat_form"] = 0.3
+            cfg["mirror_geo"] = rng.random() < 0.5
         elif arm == "deep":
             cfg["depth"] = rng.choice([4, 5])
             cfg["n_forms"] = rng.randint(2, 4)
@@ -163,7 +171,7 @@ class C12(Scenario):
         n_pert = rng.choice([1, 2, 2, 3]) if arm not in ("digit-boundary", "multi-mesh") else rng.choice([1, 2])
         nodes = [{"salt": 0, "init": []}]
         for i in range(n_pert):
-            if arm in ("digit-boundary", "multi-mesh", "warm", "shared-measure"):
+            if arm in ("digit-boundary", "multi-mesh", "warm", "shared-measure") or (arm == "probe" and rng.random() < 0.6):
                 salt = 0
             elif arm == "salt":
                 salt = rng.choice(SALTS[1:])
@@ -200,6 +208,8 @@ class C12(Scenario):
                         "n_derived": rng.randint(0, 3) if arm != "shared-measure" else rng.randint(3, 7),
                         "global_measure_p": 0.9 if arm == "shared-measure" else 0.35,
                         "families": {"flat": True},
+                        "foreign": rng.random() < 0.5,
+                        "exotic_p": rng.choice([0.0, 0.3, 0.6]),
                     },
                 },
             )
@@ -222,6 +232,71 @@ class C12(Scenario):
                         u["op"] = ["fault", "stack", rng.choice([4, 8, 15, 30, 60, 120]), qop]
                 pos = 0 if prelude else rng.randint(0, npos)
                 inserts.append((pos, qi, u))
+        # probe noise: read-only observations and public algorithms applied to the program's
+        # OWN objects at other times than on the reference node (a signature query, a
+        # comparison or an algorithm run on one form is process state for the next one)
+        probe_w = {"probe": 1.0, "multi-mesh": 0.5, "uniform": 0.4, "salt": 0.3, "deep": 0.4}.get(arm, 0.25)
+        if arm != "demo":
+            pidx = [i for i, u in enumerate(units) if u["k"] == "P"]
+            made_at = {}
+            for k_, i in enumerate(pidx):
+                o = units[i]["op"]
+                if len(o) > 1 and isinstance(o[1], int):
+                    made_at[o[1]] = k_
+                if o[0] == "unpack":
+                    for x in o[3]:
+                        made_at[x] = k_
+            fslots = [s for s in dict.fromkeys([f[0] for f in P["forms"]] + [f[0] for f in P["derived"]]) if s in made_at]
+            eslots = [s for s in dict.fromkeys(P["exprs"]) if s in made_at]
+            coefs = [c for M in P["meshes"] for c in M["coefs"] if c in made_at]
+            for ni in range(1, len(nodes)):
+                if not fslots or rng.random() >= probe_w:
+                    continue
+                for j in range(rng.randint(2, 9)):
+                    out = NOISE_BASE * ni + 500_000 + j
+                    q = rng.random()
+                    s_ = rng.choice(fslots)
+                    lo = made_at[s_] + 1
+                    if q < 0.35:
+                        op = ["obs", None, rng.choice(["sig", "sig", "sig", "hash", "args", "coeffs", "repr", "str", "meta"]), s_]
+                    elif q < 0.45 and eslots:
+                        s_ = rng.choice(eslots)
+                        lo = made_at[s_] + 1
+                        op = ["obs", None, rng.choice(["hash", "repr", "str", "sig"]), s_]
+                    elif q < 0.55 and len(fslots) + len(eslots) > 1:
+                        pool_ = fslots if rng.random() < 0.5 or len(eslots) < 2 else eslots
+                        a_, b_ = rng.choice(pool_), rng.choice(pool_)
+                        lo = max(made_at[a_], made_at[b_]) + 1
+                        op = ["cmp", None, a_, b_]
+                    elif q < 0.62:
+                        op = ["roundtrip", out, s_, "pickle"]
+                    elif q < 0.72 and coefs:
+                        c_ = rng.choice(coefs)
+                        lo = max(lo, made_at[c_] + 1)
+                        op = ["call", out, "ufl.derivative", [["$", s_], ["$", c_]]]
+                    else:
+                        fn = rng.choice(
+                            [
+                                "ufl.action",
+                                "ufl.action",
+                                "ufl.adjoint",
+                                "ufl.algorithms.expand_derivatives",
+                                "sim.ops.preprocessed_form",
+                                "sim.ops.preprocessed_form",
+                                "sim.ops.form_data",
+                                "ufl.extract_blocks",
+                                "ufl.lhs",
+                                "ufl.rhs",
+                                "ufl.algorithms.renumbering.renumber_indices",
+                                "ufl.algorithms.apply_algebra_lowering.apply_algebra_lowering",
+                                "ufl.algorithms.strip_terminal_data",
+                                "operator.neg",
+                            ]
+                        )
+                        op = ["call", out, fn, [["$", s_]]]
+                        if fn.startswith("sim.ops.") and rng.random() < 0.5:
+                            op.append({"do_apply_function_pullbacks": True, "do_apply_integral_scaling": True, "do_apply_geometry_lowering": True})
+                    inserts.append((rng.randint(lo, npos), 10**6 + j, {"k": "noise", "n": ni, "op": op, "probe": 1}))
         # counter noise
         for ni in range(1, len(nodes)):
             for _ in range(rng.randint(0, 4)):
@@ -386,6 +461,8 @@ class C12(Scenario):
                     parts.add("fault:" + op[1])
                 elif op[0] in ("bump", "setctr"):
                     parts.add("ctr:" + op[2])
+                elif u.get("probe"):
+                    parts.add("probe:" + (op[2] if op[0] in ("obs", "call") else op[0]))
                 else:
                     parts.add("noise")
         if viol["detail"].get("second_build"):
